@@ -30,9 +30,9 @@ claim('C16', 'proof', K1 + '; ' + K2 + '; ' + BD,
       'ULEB128._parse and SLEB128._parse proved equal to the standard value (sign extension for any length) and length for every byte string (loop invariant, variant, raises-iff-truncated); UBInt24/ULInt24, the initial-length adapter (32/64-bit escape, reserved values), roundup proved; struct_parse is executed from its real body at every call site; every fixed-width primitive factory of ELFStructs/DWARFStructs and the initial-length struct K2-checked in every configuration',
       'a bounded differential over encodings of 1..20 groups (minimal and padded) keeps deciding when a LEB128 loop is rewritten in a form the engine rejects; struct.Struct.unpack assumed to be the two\'s-complement reader of standard sizes; construct\'s FormatField/CString/PrefixedArray node semantics assumed (Sem, DESIGN 2.8)')
 
-claim('C01', 'proof', K1 + '; ' + K2,
+claim('C01', 'proof', K1 + '; ' + K2 + '; ' + BD,
       'Ehdr/Shdr/Phdr layouts K2-checked over every (class, byte order, machine, OS ABI, file type); table addressing with e_shentsize/e_phentsize, extended-numbering escapes, header fetch, type->class dispatch (all 18 kinds), segment dispatch, enumeration generators proved against their specifications for all inputs',
-      'lookups through an already built name map are under contract (index 0 is an index); the construction of the map is not (exercised by the C10 repeated-query fault injection); constructors of Dynamic/Relocation/Attributes sections and the eight linked-section helpers are assumed contracts at the dispatch (checked under their own properties where listed); Sem of construct node kinds assumed')
+      'lookups through an already built name map are under contract (index 0 is an index); the construction of the map is not: it is decided by the bounded header differential (images with header tables anywhere and oversized entries: lookups by name and index against the enumeration, on fresh and used objects) and exercised by the C10 repeated-query fault injection; constructors of Dynamic/Relocation/Attributes sections and the eight linked-section helpers are assumed contracts at the dispatch (checked under their own properties where listed); Sem of construct node kinds assumed')
 claim('C02', 'proof', K1 + '; ' + K2 + '; ' + BD,
       'chunked C-string reader proved to return the bytes up to the first NUL for any length; string table lookup; Section.__init__ compression header and Section.data (NOBITS / zlib with size check / raw) ; Segment.data; interpreter name; address_offsets soundness; section_in_segment proved equal to the binutils strict rule on every path; Elf_Chdr K2',
       'zlib.decompressobj assumed (documented contract); address_offsets completeness (every containing PT_LOAD segment is yielded, in order) and independence between same-named sections are covered by the bounded contents differential only (overlapping / nested / abutting segments; same-named compressed sections); binutils rule scoped to the four condition groups of the statement')
@@ -77,8 +77,8 @@ claim('C12', 'proof', K1 + '; ' + K2 + '; ' + BD,
       'the parse loop (DWARFExprParser.parse_expr: opcode, offset and operand bookkeeping, whole string consumed) is K1-proved for every byte string over ABSTRACT operand parsers (end/args functions of bytes, position, opcode); what each real table entry reads is the K2 conformance obligation per opcode; nested entry-value expressions and the composition of the two are covered by the bounded sample')
 
 claim('C19', 'proof', K1 + '; bounded fault injection (labelled bounded, never counted as proved)',
-      'K1 (all byte strings): ELFFile.__init__ either returns -- with the header decoded at offset 0 in the class and byte order e_ident announces and the invariants the other contracts assume -- or raises ELFError (ELFParseError is a subclass): every path of the real constructor, _identify_file, header fetch, extended string-table index and the compressed string-table header is explored; termination with an iteration bound linear in the file size is proved by loop variants for the dynamic tag walk, note walk, version-record chains, GNU/SysV hash symbol counts, RELR expansion and the section/segment/symbol enumerations under contract',
-      'ELFStructs.create_basic_structs/create_advanced_structs are assumed not to raise (K2 runs them in every configuration); memory bounds are not expressible as contracts and are covered only indirectly (iteration bounds); the enumeration battery as a whole is exercised by the bounded fault injection (truncations, header byte substitutions, random corruptions of 7 seed files, 30 s CPU-time limit per case); two constructor defects were found and fixed (known_findings.json)')
+      'K1 (all byte strings): ELFFile.__init__ either returns -- with the header decoded at offset 0 in the class and byte order e_ident announces and the invariants the other contracts assume -- or raises ELFError (ELFParseError is a subclass): every path of the real constructor, _identify_file, header fetch, extended string-table index and the compressed string-table header is explored; termination with an iteration bound linear in the file size is proved by loop variants for the dynamic tag walk, note walk, version-record chains (after the repair recorded in known_findings.json: a zero displacement ends the chain whatever the counts say), GNU/SysV hash symbol counts, RELR expansion and the section/segment/symbol enumerations under contract',
+      'ELFStructs.create_basic_structs/create_advanced_structs are assumed not to raise (K2 runs them in every configuration); memory bounds are not expressible as contracts and are covered only indirectly (iteration bounds); the enumeration battery as a whole is exercised by the bounded fault injection (truncations, header byte substitutions, byte substitutions in the section-header, program-header, dynamic, note, hash and version records, random corruptions of 8 seed files, 30 s CPU-time limit per case); two constructor defects and one unbounded record walk were found and fixed (known_findings.json)')
 
 NOT_YET = 'not yet built in this round (DESIGN.md section 9 gives the order of work)'
 NA = {
